@@ -125,7 +125,7 @@ def run(ctx):
                       for (row, col), a in zip(probes, outs[2:])])
         table.append('(%d, FView (mkview %s %s %s))' % (i, diags, syms, defs))
     # ---- event sequences over two documents
-    docs = ['a.pydjinni', 'b.pydjinni']
+    docs = ['a.pydjinni', 'b(v2).pydjinni']     # the second URI is spelled as editors spell it: parentheses not percent-encoded
     seqs = []
     if ctx.thorough:
         # exhaustive to depth 3 over {open, change, close, symbols} x 2 docs x 5 texts
